@@ -405,7 +405,8 @@ var wlSubscribeOverlap = Workload{
 // wlBrokerBurst: the broker sends 2-5 PUBLISHes back to back (no quiescence in between) on a mix of new,
 // repeated-new, short, predefined and already registered names while the client acknowledges
 // REGISTER/PUBLISH 0 / 1 ms / 500 ms late: several gateway-initiated exchanges (REGISTER + PUBLISH) are in
-// flight at once. Two bursts per session; everything must arrive (C02), under consistent IDs (C04).
+// flight at once. Three bursts per session; everything must arrive (C02), under consistent IDs (C04), and
+// at the end the client publishes with every TopicID it got from a REGISTER (C01: it still denotes that name).
 var wlBrokerBurst = Workload{
 	Name: "broker-burst",
 	N:    func(r *rt.Run) int { return r.N(600, 12000) },
@@ -414,6 +415,9 @@ var wlBrokerBurst = Workload{
 		cfg := world.GWConfig{Predefined: pre, RetryDelay: 10 * time.Second, RetryCount: 2}
 		bcfg := world.BrokerCfg{FirstID: uint16([]int{30000, 65533, 1}[rng.Intn(3)])}
 		ackDelay := []time.Duration{0, time.Millisecond, 500 * time.Millisecond}[i%3]
+		// in a third of the cases the client sends every REGACK twice (a duplicated datagram / an answer to a
+		// retransmission that crossed): the stale copy may arrive while the next REGISTER is outstanding
+		dupRegack := []time.Duration{0, 0, time.Millisecond, 300 * time.Millisecond}[(i/3)%4]
 		clientID := []string{"cl", "other"}[rng.Intn(2)]
 		g := &GWRun{Cfg: cfg, BCfg: bcfg, NSess: 1}
 		say := func(f string, a ...interface{}) { g.Script = append(g.Script, fmt.Sprintf(f, a...)) }
@@ -421,7 +425,7 @@ var wlBrokerBurst = Workload{
 		bubble(t, func() {
 			w := world.New(cfg)
 			b := world.NewBroker(bcfg)
-			s := w.NewSession(peerHandler(PeerOpts{AckDelay: ackDelay}), b.Handler())
+			s := w.NewSession(peerHandler(PeerOpts{AckDelay: ackDelay, DupRegack: dupRegack}), b.Handler())
 			synctest.Wait()
 			send := func(p *snref.Pkt) { say("client sends %s", p); s.SNSendP(p); synctest.Wait() }
 			send(snref.Connect(clientID, 60, false, true))
@@ -432,21 +436,35 @@ var wlBrokerBurst = Workload{
 			time.Sleep(10 * time.Millisecond)
 			synctest.Wait()
 			tag := 0
-			for burst := 0; burst < 2; burst++ {
-				k := 2 + rng.Intn(4)
+			for burst := 0; burst < 3; burst++ {
+				k := 1 + rng.Intn(4)
 				for n := 0; n < k; n++ {
 					tag++
 					name, q := names[rng.Intn(len(names))], byte(rng.Intn(3))
 					say("broker publishes topic=%q qos=%d (burst %d)", name, q, burst)
 					b.Publish(s, name, q, rng.Intn(5) == 0, []byte(fmt.Sprintf("c%d-%d|", c.I, tag)))
 				}
-				d := []time.Duration{0, time.Millisecond, 3 * time.Second}[rng.Intn(3)]
+				d := []time.Duration{0, time.Millisecond, 600 * time.Millisecond, 3 * time.Second}[rng.Intn(4)]
 				say("advance %v", d)
 				time.Sleep(d)
 				synctest.Wait()
 			}
 			time.Sleep(5 * time.Second)
 			synctest.Wait()
+			// the client uses every TopicID it was given by a REGISTER it accepted (C01: the ID still denotes that name)
+			seen := map[uint16]bool{}
+			mid := uint16(100)
+			for _, e := range w.Tr.Events() {
+				if e.Kind != world.SNOut {
+					continue
+				}
+				if p, _ := snref.ParseLoose(e.B); p != nil && p.Type == snref.REGISTER && !seen[p.TopicID] {
+					seen[p.TopicID] = true
+					mid++
+					tag++
+					send(snref.Publish(0, p.TopicID, mid, uint8(rng.Intn(2)), false, false, []byte(fmt.Sprintf("c%d-up%d|", c.I, tag))))
+				}
+			}
 			send(snref.Pingreq(""))
 			time.Sleep(time.Second)
 			synctest.Wait()
@@ -457,7 +475,7 @@ var wlBrokerBurst = Workload{
 			handleLeaks(c, g)
 			w.WaitHarness()
 		})
-		g.Desc = strings.Join(g.Script, ";") + fmt.Sprintf("|ack-delay=%v|", ackDelay) + cfgString(pre)
+		g.Desc = strings.Join(g.Script, ";") + fmt.Sprintf("|ack-delay=%v|dup-regack=%v|", ackDelay, dupRegack) + cfgString(pre)
 		g.Items, g.RestOut = g.Session(0)
 		return g
 	},
@@ -477,7 +495,7 @@ var wlTrafficBroker = mkTrafficWL("traffic-broker", 2000, 40000, func(rng *rand.
 
 func TestC01(t *testing.T) {
 	r := rt.Start(t, "C01")
-	runWorkloads(t, r, []Workload{wlTrafficClean, wlTrafficHostile, wlTrafficOverlap, wlSubscribeOverlap}, func(g *GWRun) ([]monitors.V, int) {
+	runWorkloads(t, r, []Workload{wlTrafficClean, wlTrafficHostile, wlTrafficOverlap, wlSubscribeOverlap, wlBrokerBurst}, func(g *GWRun) ([]monitors.V, int) {
 		return monitors.C01(g.Items, toPredef(g.Cfg.Predefined))
 	})
 	r.Finish(trafficRule+" Oracle C01: in-order one-to-one match between accepted client PUBLISHes and the MQTT PUBLISHes written to the broker (topic from the reference registration model, payload, retain, DUP, QoS with -1 -> 0, message ID); a PUBLISH whose ID denotes nothing (or reserved topic-ID type 3) must not appear at the broker.", nil)
@@ -499,4 +517,4 @@ func TestC03(t *testing.T) {
 	r.Finish(trafficRule+" Oracle C03: per packet type, the sequences on the two links correspond one-to-one in order with equal message IDs (SUBSCRIBE/UNSUBSCRIBE: resolved filter and requested QoS; SUBACK: accepted iff broker code 0-2, granted QoS, topic ID by filter kind).", nil)
 }
 
-const trafficRule = "workloads: adaptive lock-step sessions against the real handler in virtual time: CONNECT, then 4-32 random steps over {REGISTER, SUBSCRIBE (string/wildcard/short/predefined, QoS 0-2), UNSUBSCRIBE, PUBLISH (every DUP/QoS/retain combination; IDs drawn from confirmed registrations, predefined IDs 1-6 incl. client/'*' overlaps, short names, and - hostile variant - unknown/0/0xFFFF IDs, reserved type 3, wildcard names, QoS 3 subscriptions, message IDs 0/0xFFFF), PUBREL, PINGREQ, broker PUBLISH QoS 0-2 on short/predefined/registered/new names}, 4 predefined-map shapes x 3 client IDs, broker SUBACK policies {as requested, random 0-2, sometimes 0x80}, payload sizes {0,1,2,246..252,1000,7168}; the generator learns assigned IDs from the wire. plus (C02, C04) broker bursts: 2-5 broker PUBLISHes back to back on new / repeated / short / predefined / registered names while the client acknowledges REGISTER and PUBLISH 0 / 1 ms / 500 ms late, so that several gateway-initiated exchanges are in flight at once. A case is non-trivial when the oracle's antecedent fired; distinct by script."
+const trafficRule = "workloads: adaptive lock-step sessions against the real handler in virtual time: CONNECT, then 4-32 random steps over {REGISTER, SUBSCRIBE (string/wildcard/short/predefined, QoS 0-2), UNSUBSCRIBE, PUBLISH (every DUP/QoS/retain combination; IDs drawn from confirmed registrations, predefined IDs 1-6 incl. client/'*' overlaps, short names, and - hostile variant - unknown/0/0xFFFF IDs, reserved type 3, wildcard names, QoS 3 subscriptions, message IDs 0/0xFFFF), PUBREL, PINGREQ, broker PUBLISH QoS 0-2 on short/predefined/registered/new names}, 4 predefined-map shapes x 3 client IDs, broker SUBACK policies {as requested, random 0-2, sometimes 0x80}, payload sizes {0,1,2,246..252,1000,7168}; the generator learns assigned IDs from the wire. plus (C01, C02, C04) broker bursts: 1-4 broker PUBLISHes back to back, three times, on new / repeated / short / predefined / registered names while the client acknowledges REGISTER and PUBLISH 0 / 1 ms / 500 ms late (and in a third of the cases sends every REGACK twice), finally publishing with every TopicID it was given, so that several gateway-initiated exchanges are in flight at once. A case is non-trivial when the oracle's antecedent fired; distinct by script."
